@@ -1,10 +1,13 @@
 (* C08/Model.v -- harness-facing checkers: the regenerated validator regexes, run by the verified
    derivative matcher, against BnodeId::new / VarName::new / LanguageTag::new (val3_ok); the byte -> text layer
-   of the parser entry points against String::from_utf8 and the JSON-LD parser's UTF-8 error (utf8_ok, Utf8.v). *)
+   of the parser entry points against String::from_utf8 and the JSON-LD parser's UTF-8 error (utf8_ok, Utf8.v);
+   every way of driving a parser's source, again after Err / Ok / exhaustion, against what the required method
+   try_for_some_item gives on a fresh source (hist_ok, Source.v). *)
 From Sophia.Common Require Export Prelude.
 From Sophia.C08 Require Export Regex.
 From Sophia.gen Require Export LabelSrc.
 From Sophia.C08 Require Export Utf8.
+From Sophia.C08 Require Export Source.
 
 Definition val3_ok (s : str) (bnode var tag : bool) : bool :=
   Bool.eqb (matchb bnode_id_regex s) bnode && Bool.eqb (matchb varname_regex s) var
